@@ -1,7 +1,7 @@
 """C19 - ECDSA recovery returns the algebraically determined key or refuses."""
 from hypothesis import strategies as st
 
-from vf.harness import HarnessError, Task, drive, hx, same_by_name, unhx
+from vf.harness import HarnessError, Task, drive, hx, run_cases_optimized, same_by_name, unhx
 from vf.model import kdf, nt, params
 from vf.model.secp import SECP
 from vf.props._secp_common import patched, tiny_curves, to_lib
@@ -19,7 +19,7 @@ ASSUMPTIONS = ["affine model and textbook ECDSA in vf/model/secp.py",
                "3 mod 4 because the library's square root is x^((P+1)/4)"]
 ENGINE = "exhaustive enumeration on substituted tiny curves + hypothesis on the real curve"
 TECHNIQUE = ("exhaustive enumeration of (v, r, s, z) on substituted tiny curves + structured property-based testing (Hypothesis) on the real curve against an independent recovery model")
-REQUIRED_LABELS = {t: ["B:accept", "B:raise:v", "B:raise:r=0modN", "B:raise:s=0modN",
+REQUIRED_LABELS = {t: ["python_-O:cases", "B:accept", "B:raise:v", "B:raise:r=0modN", "B:raise:s=0modN",
                        "B:raise:not_x", "B:accept:r>=N", "B:accept:high_s", "B:accept:summands_related:lambda", "B:accept:summands_related:1",
                        "B:accept:summands_related:-1", "A:accept", "A:identity",
                        "A:raise"] for t in ("quick", "thorough")}
@@ -243,6 +243,8 @@ def t_real(ctx, shard, n):
             ex.append({"h": hx(hh), "v": 27 + Rk[1] % 2, "r": Rk[0],
                        "s": c * (-int.from_bytes(hh, "big")) * nt.inv_mod(k, N) % N,
                        "origin": f"related:{'lambda' if abs(c) > 1 else c}"})
+    if shard == 0:
+        run_cases_optimized(ctx, "C19", [{"sub": "real", "case": c} for c in ex[::3]])     # and under python -O
     drive(ctx, f"real{shard}", s_case(), lambda c: o_real(ctx, c), n, ex)
 
 
